@@ -3,7 +3,12 @@
 (* Property C16.  Generated cluster scripts (Crop.gen_cluster_script) and  *)
 (* the command-line grower (xyzpy-grow) as "which batch does task k grow". *)
 (*                                                                         *)
-(* A crop of B batches has the finished batches res \subseteq 1..B.        *)
+(* A crop of B batches has the finished batches res \subseteq 1..B: batch   *)
+(* i is finished iff results/ holds the complete file xyz-result-i.jbdmp.  *)
+(* Besides those, results/ may hold stray files (stray): the temporary     *)
+(* file xyz-result-i.jbdmp.<pid>-<uuid>.tmp a grower left when it was      *)
+(* killed while publishing its result, or a copy xyz-result-i.jbdmp.bak.   *)
+(* They never make a batch finished.                                       *)
 (*                                                                         *)
 (*   Gen(s, m, e, o, ord)  gen_cluster_script(crop, s, batch_ids = e,      *)
 (*                         mode = m, <resource options o>): chooses the    *)
@@ -15,13 +20,20 @@
 (*                         variable = k, for every k of the header range,  *)
 (*                         in any order, each once (k = 0: started once    *)
 (*                         with the variable unset - no array line)        *)
+(*   StartTask(k),         the same for array tasks that are alive at the  *)
+(*   PyTask(k)             same time (conc): the shell part of task k      *)
+(*                         (here-document with the index substituted ->    *)
+(*                         the program text of the task) and the launcher  *)
+(*                         running that program are two steps, interleaved *)
+(*                         with the steps of the other tasks               *)
 (*   RunSingle             the single-mode script is started once          *)
 (*   OtherGrow(b)          somebody else finishes batch b between          *)
 (*                         generating and starting a single-mode script    *)
 (*                         that computes its ids when it runs              *)
 (*   CliGrow(co)           xyzpy-grow <name> --parent-dir <dir> [options]  *)
 (*                                                                         *)
-(* ran   = array indices started, in order                                 *)
+(* ran   = array indices whose program ran, in order                       *)
+(* hist  = (conc only) the schedule: <<"start", k>> / <<"py", k>> events   *)
 (* grown = batch ids grown by the script / the CLI, in order (a bag)       *)
 (* want  = the batch ids the property intends: the requested ones, else    *)
 (*         the missing ones (for a script that computes them when it runs: *)
@@ -35,12 +47,18 @@ CONSTANTS Bs,            \* crop sizes (numbers of batches) to explore
           OrderMax,      \* all task orders for <= OrderMax tasks, else ascending and descending
           OptB,          \* the crop size for which resource options are enumerated (0: none)
           MaxOptGroups,  \* how many option groups may be non-default at once (1..4)
+          StrayMaxB,     \* stray files in results/ are enumerated for B <= StrayMaxB
+          ConcMax,       \* array jobs of 2..ConcMax tasks are also run as overlapping tasks, every interleaving
           Variant        \* "code", or a deliberately wrong reading used as self-test of the properties:
-                         \* "always_all" (template 'all' although results exist), "cli_all" (CLI grows everything)
+                         \* "always_all" (template 'all' although results exist), "cli_all" (CLI grows everything),
+                         \* "prefix_match" (any file whose name starts like a result file counts as a result),
+                         \* "shared_file" (the program text is kept in one file shared by all tasks of the job)
 
-VARIABLES B, res0, res, explicit, opt, script, order, ran, grown, want, other, pc
+VARIABLES B, res0, res, stray, explicit, opt, script, order, conc, started, lastw, clob, hist,
+          ran, grown, want, other, pc
 
-vars == <<B, res0, res, explicit, opt, script, order, ran, grown, want, other, pc>>
+vars == <<B, res0, res, stray, explicit, opt, script, order, conc, started, lastw, clob, hist,
+          ran, grown, want, other, pc>>
 
 Scheds == {"sge", "pbs", "slurm"}
 Modes  == {"array", "single"}
@@ -50,6 +68,9 @@ Upto(n)  == [i \in 1..n |-> i]
 (* the ascending sequence of a finite set of integers *)
 Asc(S)   == [i \in 1..Cardinality(S) |-> CHOOSE x \in S : Cardinality({y \in S : y < x}) = i - 1]
 Missing(b, r) == (1..b) \ r
+(* what the code takes for missing: the batches i without the file xyz-result-i.jbdmp *)
+StrayIds == {f[2] : f \in stray}
+CodeMissing(b, r) == IF Variant = "prefix_match" THEN (1..b) \ (r \cup StrayIds) ELSE (1..b) \ r
 Count(s, x) == Cardinality({i \in DOMAIN s : s[i] = x})
 SameBag(s, t) == \A x \in Range(s) \cup Range(t) : Count(s, x) = Count(t, x)
 Injective(s) == \A i, j \in DOMAIN s : i # j => s[i] # s[j]
@@ -60,6 +81,13 @@ Injective(s) == \A i, j \in DOMAIN s : i # j => s[i] # s[j]
 InitialRes(b) ==
     IF b <= SubsetMaxB THEN {r \in SUBSET (1..b) : r # 1..b}
     ELSE {{}, {2}, 1..(b - 1), {x \in 1..b : x % 2 = 0}, (1..b) \ {1, b}}
+
+(* stray files: <<kind, i>>, kind "tmp" (leftover of a killed grower) or "bak"; for missing batches i,
+   and once next to a complete result as well *)
+StrayChoices(b, r) ==
+    IF b > StrayMaxB THEN {{}}
+    ELSE {{}} \cup {{<<"tmp", i>>} : i \in Missing(b, r)} \cup {{<<"bak", i>>} : i \in Missing(b, r)}
+         \cup {{<<"tmp", i>>, <<"bak", i>>, <<"tmp", j>>} : i \in Missing(b, r), j \in r}
 
 NotGiven == <<>>
 ExplicitChoices(b) ==
@@ -88,6 +116,8 @@ NoScript == [sched |-> "none", mode |-> "none", template |-> "none", ids |-> <<>
 Init == /\ B \in Bs
         /\ res0 \in InitialRes(B)
         /\ res = res0
+        /\ stray \in StrayChoices(B, res0)
+        /\ conc = FALSE /\ started = {} /\ lastw = 0 /\ clob = 0 /\ hist = <<>>
         /\ explicit = NotGiven
         /\ opt = DefaultOpt
         /\ script = NoScript
@@ -98,8 +128,9 @@ Init == /\ B \in Bs
 -----------------------------------------------------------------------------
 (* gen_cluster_script, in the order of the function's own steps. *)
 
-Gen(s, m, e, o, ord) ==
+Gen(s, m, e, o, ord, cc) ==
     /\ pc = "sown"
+    /\ stray # {} => (e = NotGiven /\ o = DefaultOpt)       \* stray files are explored with batch_ids=None
     /\ LET given    == e # NotGiven
            \* "if batch_ids is not None ... elif crop.num_results == 0 ... else"
            arraymode == IF given THEN "partial"
@@ -107,7 +138,7 @@ Gen(s, m, e, o, ord) ==
                         ELSE "partial"
            ids0     == IF given THEN e
                        ELSE IF arraymode = "all" THEN Upto(B)
-                       ELSE Asc(Missing(B, res))
+                       ELSE Asc(CodeMissing(B, res))
            \* header: "#$ -t", "#PBS -J", "#SBATCH --array" only in array mode; run_start = 1,
            \* run_stop = num_batches ('all') or len(batch_ids) ('partial')
            stop     == IF arraymode = "all" THEN B ELSE Len(ids0)
@@ -128,17 +159,23 @@ Gen(s, m, e, o, ord) ==
                          fixed |-> m = "array" /\ pbs1]
            /\ want' = IF given THEN e ELSE Asc(Missing(B, res))
            /\ ord \in (IF m = "single" \/ tasks <= 1 \/ o # DefaultOpt THEN {"asc"}
+                       ELSE IF cc THEN {"any"}
+                       ELSE IF stray # {} THEN {"desc"}
                        ELSE IF tasks <= OrderMax THEN {"any"} ELSE {"asc", "desc"})
-    /\ explicit' = e /\ opt' = o /\ order' = ord
+           \* overlapping tasks: array jobs of 2..ConcMax tasks, default options, no stray files,
+           \* ids not requested or requested for an un-grown crop
+           /\ cc => /\ arrline /\ tasks >= 2 /\ tasks <= ConcMax /\ o = DefaultOpt /\ stray = {}
+                     /\ (given => res = {})
+    /\ explicit' = e /\ opt' = o /\ order' = ord /\ conc' = cc
     /\ pc' = "generated"
-    /\ UNCHANGED <<B, res0, res, ran, grown, other>>
+    /\ UNCHANGED <<B, res0, res, stray, started, lastw, clob, hist, ran, grown, other>>
 
 (* the indices the scheduler starts: the header range, or one start without index *)
 Tasks == IF script.range = <<>> THEN {0} ELSE script.range[1]..script.range[2]
 
 RunTask(k) ==
     /\ pc \in {"generated", "running"}
-    /\ script.mode = "array"
+    /\ script.mode = "array" /\ ~conc
     /\ k \in Tasks \ Range(ran)
     /\ \/ order = "any"
        \/ order = "asc"  /\ \A j \in Tasks \ Range(ran) : k <= j
@@ -152,17 +189,46 @@ RunTask(k) ==
            /\ res' = res \cup {b}
     /\ ran' = Append(ran, k)
     /\ pc' = IF Range(ran') = Tasks THEN "done" ELSE "running"
-    /\ UNCHANGED <<B, res0, explicit, opt, script, order, want, other>>
+    /\ UNCHANGED <<B, res0, stray, explicit, opt, script, order, conc, started, lastw, clob, hist, want, other>>
+
+(* Overlapping tasks.  The shell part of task k expands the here-document with its own index into the
+   program text of the task - kept in the task's own memory (a shell variable handed to the launcher
+   with -c), so lastw, "whose text was written last", matters only to the wrong reading "shared_file"
+   where all tasks keep the text in one file.  PyTask(k): the launcher runs the program of task k. *)
+StartTask(k) ==
+    /\ pc \in {"generated", "running"}
+    /\ script.mode = "array" /\ conc
+    /\ k \in Tasks \ (started \cup Range(ran))
+    /\ started' = started \cup {k}
+    /\ lastw' = k
+    /\ hist' = Append(hist, <<"start", k>>)
+    /\ pc' = "running"
+    /\ UNCHANGED <<B, res0, res, stray, explicit, opt, script, order, conc, clob, ran, grown, want, other>>
+
+PyTask(k) ==
+    /\ pc = "running"
+    /\ conc /\ k \in started
+    /\ LET text == IF Variant = "shared_file" THEN lastw ELSE k     \* whose program text is run
+           idx  == IF script.fixed THEN 1 ELSE text
+           b    == IF script.template = "all" THEN idx ELSE script.ids[idx]
+       IN  /\ grown' = Append(grown, b)
+           /\ res' = res \cup {b}
+    /\ clob' = clob + (IF lastw # k THEN 1 ELSE 0)    \* another task passed its shell part in between
+    /\ started' = started \ {k}
+    /\ ran' = Append(ran, k)
+    /\ hist' = Append(hist, <<"py", k>>)
+    /\ pc' = IF Range(ran') = Tasks THEN "done" ELSE "running"
+    /\ UNCHANGED <<B, res0, stray, explicit, opt, script, order, conc, lastw, want, other>>
 
 RunSingle ==
     /\ pc = "generated"
     /\ script.mode = "single"
-    /\ LET todo == IF script.dynamic THEN Asc(Missing(B, res)) ELSE script.ids
+    /\ LET todo == IF script.dynamic THEN Asc(CodeMissing(B, res)) ELSE script.ids
        IN  /\ grown' = grown \o todo
            /\ res' = res \cup Range(todo)
     /\ ran' = <<0>>
     /\ pc' = "done"
-    /\ UNCHANGED <<B, res0, explicit, opt, script, order, want, other>>
+    /\ UNCHANGED <<B, res0, stray, explicit, opt, script, order, conc, started, lastw, clob, hist, want, other>>
 
 OtherGrow(b) ==
     /\ pc = "generated"
@@ -173,12 +239,12 @@ OtherGrow(b) ==
     /\ res' = res \cup {b}
     /\ other' = b
     /\ want' = SelectSeq(want, LAMBDA x : x # b)     \* "currently missing" when the script runs
-    /\ UNCHANGED <<B, res0, explicit, opt, script, order, ran, grown, pc>>
+    /\ UNCHANGED <<B, res0, stray, explicit, opt, script, order, conc, started, lastw, clob, hist, ran, grown, pc>>
 
 (* xyzpy-grow: crop.grow_missing() *)
 CliGrow(co) ==
     /\ pc = "sown"
-    /\ LET todo == IF Variant = "cli_all" THEN Upto(B) ELSE Asc(Missing(B, res))
+    /\ LET todo == IF Variant = "cli_all" THEN Upto(B) ELSE Asc(CodeMissing(B, res))
        IN  /\ grown' = todo
            /\ res' = res \cup Range(todo)
     /\ want' = Asc(Missing(B, res))
@@ -186,22 +252,26 @@ CliGrow(co) ==
     /\ opt' = [DefaultOpt EXCEPT !.par = co]
     /\ ran' = <<0>>
     /\ pc' = "done"
-    /\ UNCHANGED <<B, res0, explicit, order, other>>
+    /\ UNCHANGED <<B, res0, stray, explicit, order, conc, started, lastw, clob, hist, other>>
 
 (* One named action per kind of step (TLC reports coverage per named disjunct of Next); the
    guards on pc are repeated in front of the quantifiers only to spare TLC the enumeration. *)
 GenScript  == /\ pc = "sown"
               /\ \E s \in Scheds, m \in Modes, e \in ExplicitChoices(B), ord \in {"any", "asc", "desc"} :
-                   \E o \in OptChoices(B, res, e) : Gen(s, m, e, o, ord)
+                   \E o \in OptChoices(B, res, e), cc \in BOOLEAN : Gen(s, m, e, o, ord, cc)
 RunArray   == /\ pc \in {"generated", "running"}
               /\ \E k \in Tasks : RunTask(k)
+StartShell == /\ pc \in {"generated", "running"}
+              /\ \E k \in Tasks : StartTask(k)
+RunPython  == /\ pc = "running"
+              /\ \E k \in started : PyTask(k)
 Interfere  == /\ pc = "generated"
               /\ \E b \in 1..B : OtherGrow(b)
 RunCli     == /\ pc = "sown"
               /\ \E co \in CliOpts : CliGrow(co)
 Finished   == pc = "done" /\ UNCHANGED vars
 
-Next == GenScript \/ RunArray \/ RunSingle \/ Interfere \/ RunCli \/ Finished
+Next == GenScript \/ RunArray \/ StartShell \/ RunPython \/ RunSingle \/ Interfere \/ RunCli \/ Finished
 
 Spec == Init /\ [][Next]_vars
 
@@ -214,7 +284,8 @@ TypeOK ==
     /\ B \in Bs /\ res \subseteq 1..B /\ res0 \subseteq res
     /\ pc \in {"sown", "generated", "running", "done"}
     /\ Range(grown) \subseteq 1..B
-    /\ script.mode = "array" => Range(ran) \subseteq Tasks
+    /\ script.mode = "array" => Range(ran) \subseteq Tasks /\ started \subseteq Tasks
+    /\ \A f \in stray : f[1] \in {"tmp", "bak"} /\ f[2] \in 1..B
 
 (* exactly the intended batches, each once *)
 GrownExact == Done => SameBag(grown, want) /\ Injective(grown)
@@ -248,6 +319,10 @@ EmitCase ==
                                  dynamic |-> script.dynamic,
                                  range |-> script.range, fixed |-> script.fixed,
                                  order |-> order, ran |-> ran, grown |-> grown, want |-> want,
+                                 stray |-> [i \in 1..Cardinality(stray) |->
+                                              CHOOSE f \in stray : Cardinality({g \in stray :
+                                                  g[2] < f[2] \/ (g[2] = f[2] /\ g[1] = "bak" /\ f[1] = "tmp")}) = i - 1],
+                                 conc |-> conc, hist |-> hist, clobbered |-> clob,
                                  other |-> other, res |-> Asc(res), missing |-> Asc(Missing(B, res)),
                                  ready |-> res = 1..B])>>)
 =============================================================================
